@@ -103,6 +103,8 @@ HISTORY = [
     ["call", "new-typeguard", "body"], ["call", "new-beartype", "body"], ["call", "old-typeguard", "body"],
     ["call", "none", "body"], ["call", "new-typeguard", "shape"], ["call", "old-typeguard", "shape"],
     ["genalias"], ["picklealias"], ["hook"], ["config"], ["exprfault"],
+    ["bindfail", "new-typeguard"], ["bindfail", "new-beartype"], ["bindfail", "old-typeguard"], ["bindfail", "none"],
+    ["ctxraise", "Exception"], ["ctxraise", "KeyboardInterrupt"],
 ]
 
 
@@ -115,6 +117,8 @@ def instances(tier, seed):
     # a passing check that *overwrites* an existing binding (broadcastable variadic), inside a
     # PyTree check that is rejected afterwards: the overwrite must be undone
     out.append(("core", dict(hist=[["arr", "*#v", "none"], ["tree", "*#v", None, "node2", "none"]], where="ctx")))
+    for k in ("new-typeguard", "new-beartype", "old-typeguard", "none"):
+        out.append(("core", dict(hist=[["arr", "p q", "none"], ["bindfail", k]], where="ctx")))
     pairs = [(a, b) for a in HISTORY for b in HISTORY]
     rng.shuffle(pairs)
     n2 = 60 if tier == "quick" else 600
@@ -126,7 +130,7 @@ def instances(tier, seed):
     return out
 
 
-BOUNDS = dict(history="1 operation (all 25 of the catalogue, in a context and at top level), seeded pairs (thorough: triples)",
+BOUNDS = dict(history="1 operation (all 31 of the catalogue, in a context and at top level), seeded pairs (thorough: triples)",
               fault="at the k-th call-out of the operation's site (array .shape / .dtype, custom flatten function, leaf __instancecheck__, wrapped function body, {expr}), k symbolic 0..7 (0 = no fault), class in {Exception subclass, KeyboardInterrupt, GeneratorExit}",
               shapes="history arrays: rank 2-3 with unbounded sizes; probes: rank 1-2 unbounded sizes")
 STUBS = c01.STUBS + ["TickArr / Node / RaisingLeaf: user-code stand-ins whose call-outs tick the fault counter"]
@@ -256,6 +260,30 @@ def scenario(inst, V):
                 shape = [V.int(f"{tag}s0", 0), V.int(f"{tag}s1", 0)]
                 arm(site, tag)
                 obs.append(str(guarded(lambda: fn(TickArr(shape)))))
+            elif kind == "bindfail":
+                # a call that does not bind to the signature (caught TypeError)
+                fn = get_call_fn(h[1], TickArr)
+                def bad():
+                    try:
+                        fn()
+                    except TypeError as e:
+                        return "TypeError"
+                    return "no error"
+                arm("none", tag)
+                obs.append(str(guarded(bad)))
+            elif kind == "ctxraise":
+                # a context block left through an exception after it bound something
+                exc = UserError if h[1] == "Exception" else KeyboardInterrupt
+                sh = [V.int(f"{tag}s0", 0), V.int(f"{tag}s1", 0)]
+                def blk():
+                    try:
+                        with jaxtyped("context"):
+                            isinstance(TickArr(sh), jt.Float[TickArr, "p q"])
+                            raise exc("leaving the block")
+                    except (UserError, KeyboardInterrupt):
+                        return "left"
+                arm("none", tag)
+                obs.append(str(guarded(blk)))
             elif kind == "genalias":
                 g = {"ALIAS": ALIAS}
                 exec("def gen(x) -> ALIAS:\n    yield x\n", g)
